@@ -169,8 +169,28 @@ impl<'a> G<'a> {
     None
   }
 
-  fn gen_task(&mut self, t: i64) -> Vec<Vec<Op>> {
+  fn gen_task(&mut self, t: i64, chain: bool) -> Vec<Vec<Op>> {
     let mut table: Vec<Vec<Option<Op>>> = vec![vec![None; self.na as usize]; self.len + 1];
+    if chain {
+      // deep-chain profile: task t requires t+1 first (task 1 only for some observed values of a source: a require
+      // that appears dynamically), then reads a source; entries that are not well-formed are repaired below as usual
+      let nt = self.nt as i64;
+      let src: Vec<i64> = (1..=self.nr as i64).filter(|r| self.writer[(*r - 1) as usize] == 0).collect();
+      let pick_src = |rng: &mut StdRng| -> i64 { if src.is_empty() { 1 } else { *src.choose(rng).unwrap() } };
+      if t == 1 {
+        let r = pick_src(self.rng);
+        for a in 0..self.na as usize { table[0][a] = Some(Op::rd(r, "eq")); }
+        if self.len >= 2 {
+          for a in 0..self.na as usize { if self.rng.gen_bool(0.5) { table[1][a] = Some(Op::rq(self.rng.gen_range(2..=3.min(nt)), "eq")); } }
+        }
+      } else {
+        if t < nt { for a in 0..self.na as usize { table[0][a] = Some(Op::rq(t + 1, "eq")); } }
+        if self.len >= 2 {
+          let r = pick_src(self.rng);
+          for a in 0..self.na as usize { table[1][a] = Some(Op::rd(r, "eq")); }
+        }
+      }
+    }
     loop {
       match self.explore(t, &mut table) {
         None => break,
@@ -256,6 +276,7 @@ pub fn generate(seed: u64, index: usize, cfg: &GenCfg) -> Scenario {
                   one_chk: fam != "TWOCHK" };
   let mut prog: Vec<Vec<Vec<Op>>> = Vec::new();
   let flip = free && g.rng.gen_bool(0.6);
+  let chain = !free && !ident && nt >= 4 && g.rng.gen_bool(0.25);
   for t in 1..=nt as i64 {
     if flip {
       // role-changing task: it reads the mode resource 1 first and plays a different role (writer / reader / requirer /
@@ -277,7 +298,7 @@ pub fn generate(seed: u64, index: usize, cfg: &GenCfg) -> Scenario {
       for _ in 2..=len { rows.push((0..na).map(|_| Op::ret(g.rng.gen_range(0..nv + 2))).collect()); }
       prog.push(rows);
     } else {
-      let row = g.gen_task(t); prog.push(row);
+      let row = g.gen_task(t, chain); prog.push(row);
     }
   }
   if ident {
